@@ -72,10 +72,12 @@ pub struct AckProf {
     pub ska: Option<u16>,
     /// v5.0 CONNACK Session Expiry Interval (the server overrides the client's value)
     pub sei: Option<u32>,
+    /// v5.0: a User Property with a value of this many bytes (makes the CONNACK large)
+    pub pad: Option<usize>,
 }
 impl AckProf {
     pub fn basic(sp: bool) -> Self {
-        AckProf { sp, ok: true, rm: None, tam: None, mps: None, ska: None, sei: None }
+        AckProf { sp, ok: true, rm: None, tam: None, mps: None, ska: None, sei: None, pad: None }
     }
     /// session present, but the server limits the session to this connection (Session Expiry Interval 0)
     pub fn present_expiry_0() -> Self {
@@ -98,6 +100,9 @@ impl AckProf {
             }
             if let Some(v) = self.ska {
                 props.push(Prop { id: 0x13, val: PVal::U16(v) });
+            }
+            if let Some(n) = self.pad {
+                props.push(Prop { id: 0x26, val: PVal::Pair(b"k".to_vec(), vec![b'v'; n]) });
             }
         }
         let code = if self.ok { 0 } else if ver == Ver::V5 { 0x87 } else { 5 };
@@ -159,6 +164,8 @@ pub struct Alph {
     pub use_unbound: bool,
     /// the peer may pipeline a CONNECT / CONNACK right behind its DISCONNECT (same read buffer)
     pub after_disconnect: bool,
+    /// values the application may pass to set_pingresp_recv_timeout() at any time
+    pub set_pingresp_to: Vec<u64>,
 }
 
 #[derive(Clone, Debug)]
@@ -235,6 +242,7 @@ pub enum Act {
     Timer(Tk),
     Closed,
     SetInterval(u8),
+    SetPingrespTo(u8),
     Erase(u32),
     Acquire,
     Register(u32),
@@ -277,6 +285,7 @@ pub fn act_kind(a: &Act) -> String {
         Act::Timer(k) => format!("Timer({k:?})"),
         Act::Closed => "Closed".into(),
         Act::SetInterval(_) => "SetInterval".into(),
+        Act::SetPingrespTo(_) => "SetPingrespTo".into(),
         Act::Erase(_) => "Erase".into(),
         Act::Acquire => "Acquire".into(),
         Act::Register(v) => format!("Register({})", if *v == 0 { "0" } else { "n" }),
@@ -381,6 +390,8 @@ pub struct Mdl {
     /// the peer's DISCONNECT was delivered on this transport (the application closes next, but frames
     /// that follow it in the same read buffer can still reach recv())
     pub peer_disc: bool,
+    /// current PINGRESP timeout setting (0 = none)
+    pub pingresp_to: u64,
 }
 
 impl Mdl {
@@ -411,6 +422,7 @@ impl Mdl {
             connack_owed: false,
             owed_rel: BTreeSet::new(),
             peer_disc: false,
+            pingresp_to: 0,
         }
     }
     pub fn new_session(&mut self) {
@@ -436,6 +448,7 @@ pub enum CallKind {
     Timer(Tk),
     Closed,
     SetInterval(Option<u64>),
+    SetPingrespTo(u64),
     Acquire(Result<u32, MqttError>),
     Register(u32, Result<(), MqttError>),
     Release(u32),
@@ -481,6 +494,7 @@ impl Call {
             CallKind::Timer(k) => format!("notify_timer_fired({k:?})"),
             CallKind::Closed => "notify_closed()".into(),
             CallKind::SetInterval(d) => format!("set_pingreq_send_interval({d:?})"),
+            CallKind::SetPingrespTo(d) => format!("set_pingresp_recv_timeout({d})"),
             CallKind::Acquire(r) => format!("acquire_packet_id() = {r:?}"),
             CallKind::Register(v, r) => format!("register_packet_id({v}) = {r:?}"),
             CallKind::Release(v) => format!("release_packet_id({v})"),
@@ -529,7 +543,8 @@ impl<P: Pid> Ep<P> {
         if cfg.pingresp_to != 0 {
             conn.set_pingresp_recv_timeout(cfg.pingresp_to);
         }
-        let m = Mdl::new(cfg.ver, cfg.role);
+        let mut m = Mdl::new(cfg.ver, cfg.role);
+        m.pingresp_to = cfg.pingresp_to;
         Ep { cfg, conn, m }
     }
 
@@ -992,6 +1007,11 @@ impl<P: Pid> World for Ep<P> {
             for i in 0..al.set_interval.len() {
                 v.push(Act::SetInterval(i as u8));
             }
+            for (i, t) in al.set_pingresp_to.iter().enumerate() {
+                if *t != m.pingresp_to {
+                    v.push(Act::SetPingrespTo(i as u8));
+                }
+            }
         }
         if al.erase {
             // erase_stored_publish(id) for every stored entry: a stored PUBLISH is erased and its
@@ -1255,6 +1275,11 @@ impl<P: Pid> World for Ep<P> {
                 let d = self.cfg.alph.set_interval[*i as usize];
                 let evs = self.conn.set_pingreq_send_interval(d);
                 calls.push(Call { kind: CallKind::SetInterval(d), evs });
+            }
+            Act::SetPingrespTo(i) => {
+                let d = self.cfg.alph.set_pingresp_to[*i as usize];
+                self.conn.set_pingresp_recv_timeout(d);
+                calls.push(Call { kind: CallKind::SetPingrespTo(d), evs: vec![] });
             }
             Act::Erase(id) => {
                 let evs = self.conn.erase_stored_publish(*id);
